@@ -9,7 +9,7 @@
 EXTENDS Integers, Sequences, FiniteSets, TLC
 
 (* requirements an entry point may have *)
-Reqs == {"square", "hermitian", "min2", "tall", "wide", "quat", "dense", "option", "coupled", "order3", "fullrank"}
+Reqs == {"square", "hermitian", "min2", "tall", "wide", "quat", "dense", "option", "coupled", "order3", "fullrank", "realscalar", "operandtype"}
 
 (* entry point -> set of requirements (from the documented guards) *)
 EP == [
@@ -52,6 +52,8 @@ EP == [
   quaternion_triu |-> {"quat"},
   quaternion_tril |-> {"quat"},
   normQsparse |-> {"option"},
+  sparse_scalar_mul |-> {"realscalar"},          \* SparseQuaternionMatrix * c and c * SparseQuaternionMatrix: real scalars only
+  sparse_matmul |-> {"operandtype"},             \* SparseQuaternionMatrix @ x: quaternion ndarray or SparseQuaternionMatrix only
   apply_blur_fft |-> {"option"},
   qslst_restore_fft |-> {"option"},
   qslst_restore_matrix |-> {"coupled"},
@@ -77,7 +79,9 @@ Violates == [
   wide_for_tall |-> "tall", tall_for_wide |-> "wide", real_dtype |-> "quat", complex_dtype |-> "quat",
   sparse_storage |-> "dense", unknown_option |-> "option", mismatched_pair |-> "coupled",
   unknown_option_fragment |-> "option", unknown_option_empty |-> "option", unknown_option_case |-> "option", unknown_option_type |-> "option",
-  not_order3 |-> "order3"
+  not_order3 |-> "order3",
+  complex_scalar |-> "realscalar", numpy_complex_scalar |-> "realscalar", nonnumeric_scalar |-> "realscalar", quaternion_scalar |-> "realscalar",
+  unsupported_operand |-> "operandtype"
 ]
 Classes == DOMAIN Violates
 (* boundary shapes that are themselves out of the domain of some entry points   *)
